@@ -19,6 +19,7 @@
 (***************************************************************************)
 EXTENDS PdesyApi
 
+AllTrue(cl) == \A i \in DOMAIN cl: cl[i][2]
 Started(s) == s \in {"WORKING", "FINISHED"}
 Working(opts, s) == ~IsAbsenceStep(opts, s.time)
 Count(seq, x) == Cardinality({ i \in DOMAIN seq : seq[i] = x })
@@ -466,6 +467,67 @@ C11_A(cfg, opts, ph, s0, s1, b) ==
                   /\ ~cfg.tasks[t1].auto /\ ~cfg.tasks[t1].needF
                   /\ EligibleW(cfg, w, t1)
                   /\ C06_CanAccept(cfg, s1, t1, w) )>> >>
+
+\* =========================== histories (C08 C09 C10 C15 C16 C17 C18) =========
+\* run = record of one API operation: op, args, opts, ret, obs, final = [st, lg]; pre = the
+\* snapshot before the operation; ref = the snapshot it has to agree with (args.cmp)
+SameLogs(a, b) == [a.lg EXCEPT !.mode = "x", !.status = "x"] = [b.lg EXCEPT !.mode = "x", !.status = "x"]
+SameResult(a, b) == a.lg = b.lg /\ a.st = b.st
+
+C08_H(cfg, run) ==
+  << <<"C08.H.aligned-after-" \o run.op, run.ret \in {"ok", "abort"} => AllTrue(C08_L(cfg, run.opts, run.final.lg))>> >>
+
+\* logs of a backward run in forward time
+ForwardLogs(run) == IF run.args.reverse THEN run.final.lg ELSE ReverseLogsF(run.final.lg)
+C17_H(cfg, run) ==
+  LET o == run.obs
+  IN << <<"C17.H.structure", o.struct_after.tin = o.struct_before.tin /\ o.struct_after.tout = o.struct_before.tout
+                              /\ o.struct_after.pin = o.struct_before.pin /\ o.struct_after.pout = o.struct_before.pout>>,
+        <<"C17.H.same-lists", o.same_lists>>,
+        <<"C17.H.no-helper", o.struct_after.ntasks = Len(cfg.tasks) /\ o.struct_after.tasklist = [i \in 1..Len(cfg.tasks) |-> i]>>,
+        <<"C17.H.ends", run.ret \in {"ok", "abort"}>>,
+        <<"C17.L.aligned", run.ret = "ok" => AllTrue(C08_L(cfg, run.opts, run.final.lg))>>,
+        <<"C17.L.fs-order", run.ret = "ok" /\ run.final.lg.status = "SUCCESS" =>
+              LET lg == ForwardLogs(run)
+              IN \A d \in ToSet(cfg.deps): d[3] = "FS" =>
+                    \A k \in 1..Len(lg.ts[d[2]]):
+                       lg.ts[d[2]][k] = "WORKING" => \A j \in k..Len(lg.ts[d[1]]): lg.ts[d[1]][j] # "WORKING">> >>
+
+C18_NoWorkRow(cfg, lg, s) ==
+  LET k == s + 1
+  IN /\ lg.pcost[k] = 0 /\ lg.ocost[k] = 0
+     /\ \A m \in Teams(cfg): lg.mcost[m][k] = 0
+     /\ \A p \in Wps(cfg): lg.pwcost[p][k] = 0
+     /\ \A w \in Workers(cfg): lg.wcost[w][k] = 0 /\ lg.ws[w][k] # "WORKING"
+     /\ \A f \in Facs(cfg): lg.fcost[f][k] = 0 /\ lg.fs[f][k] # "WORKING"
+     /\ \A t \in Tasks(cfg): lg.ts[t][k] # "WORKING"
+                             /\ lg.rem[t][k] = (IF k > 1 THEN lg.rem[t][k - 1] ELSE InitRem(cfg, t))
+C18_H(cfg, run, pre) ==
+  LET lg == run.final.lg
+      aligned == C08_AllLens(cfg, lg) = {lg.time}
+  IN << <<"C18.H.returns-" \o run.op, run.ret = "ok">>,
+        <<"C18.H.aligned-" \o run.op, run.ret = "ok" => aligned>>,
+        <<"C18.H.no-work-rows", run.op = "insert_absence" /\ run.ret = "ok" /\ aligned =>
+              \A s \in ToSet(run.args.L): ~Mem(pre.lg.absL, s) /\ s < lg.time => C18_NoWorkRow(cfg, lg, s)>>,
+        <<"C18.H.grows", run.op = "insert_absence" /\ run.ret = "ok" /\ aligned =>
+              lg.time >= pre.lg.time /\ lg.time <= pre.lg.time + Len(run.args.L)>>,
+        <<"C18.H.shrinks", run.op = "remove_absence" /\ run.ret = "ok" /\ aligned =>
+              lg.time = pre.lg.time - Cardinality({ a \in ToSet(pre.lg.absL) : a < pre.lg.time })>> >>
+
+C16_H(cfg, run, pre) ==
+  << <<"C16.H.write-ok", run.obs.write_ok>>,
+     <<"C16.H.read-ok", run.obs.write_ok => run.obs.read_ok>>,
+     <<"C16.H.json-fixpoint", run.obs.read_ok => run.obs.fixpoint>>,
+     <<"C16.H.xrefs", run.obs.read_ok => run.obs.xref_ok>>,
+     <<"C16.H.state-restored", run.obs.read_ok => run.final.st = pre.st>>,
+     <<"C16.H.logs-restored", run.obs.read_ok => run.final.lg = pre.lg>>,
+     \* the static model parameters (everything the specification's cfg carries)
+     <<"C16.H.params-tasks", run.obs.read_ok => run.obs.params_after.tasks = run.obs.params_before.tasks>>,
+     <<"C16.H.params-workers", run.obs.read_ok => run.obs.params_after.workers = run.obs.params_before.workers>>,
+     <<"C16.H.params-facilities", run.obs.read_ok => run.obs.params_after.facs = run.obs.params_before.facs>>,
+     <<"C16.H.params-workplaces", run.obs.read_ok => run.obs.params_after.wps = run.obs.params_before.wps>>,
+     <<"C16.H.params-components", run.obs.read_ok => run.obs.params_after.comps = run.obs.params_before.comps>>,
+     <<"C16.H.params-project", run.obs.read_ok => run.obs.params_after.project = run.obs.params_before.project>> >>
 
 \* =========================== C12 ===========================================
 C12_S(cfg, opts, ph, s) ==
